@@ -316,6 +316,30 @@ pub fn record(seed: u64, tier: &str, out: &str) {
             r.size(0);
         }
     }
+    // (ii-b) restoring a snapshot into an object of the SAME size whose own history went elsewhere: small universes and
+    // few unions, so that the two objects often agree in their size arrays while their partitions differ
+    for k in 0..(if thorough { 6000 } else { 1200 }) {
+        let n = 3 + rng.usize(4);
+        let steps = 1 + rng.usize(3);
+        r.reset(n, true);
+        for _ in 0..steps {
+            r.un(rng.usize(n), rng.usize(n));
+        }
+        // the other object: same size, its own unions, then it takes over r's state through clone_from
+        let mut o = DSU::new(n);
+        for _ in 0..(if k % 3 == 0 { steps } else { 1 + rng.usize(3) }) {
+            o.un(rng.usize(n), rng.usize(n));
+        }
+        o.clone_from(&r.d);
+        r.d = o;
+        r.t.ev(json!({"ev": "clone"}));
+        for u in 0..n {
+            r.size(u);
+            for v in (u + 1)..n {
+                r.check(u, v);
+            }
+        }
+    }
     // (iii) big universes: only checkpoints are logged; component size counted by walking parents
     let bigs: &[usize] = if thorough { &[10_000, 100_000, 1 << 17, 1_000_000, (1 << 20) + 1] } else { &[10_000, 100_000, (1 << 17) + 3] };
     for &n in bigs {
